@@ -11,16 +11,19 @@ fn run(cfg: &str, n: usize, par: bool, multi: bool, rt: &tokio::runtime::Runtime
     } else {
         rt.block_on(akd::vx_export::c0203_all_answers::<ExperimentalConfiguration<ExampleLabel>>(n, par))
     };
-    let r = if multi {
+    std::panic::set_hook(Box::new(|_| {}));
+    let r = std::panic::catch_unwind(std::panic::AssertUnwindSafe(|| if multi {
         let mrt = tokio::runtime::Builder::new_multi_thread().worker_threads(4).enable_all().build().unwrap();
         go(&mrt)
-    } else { go(rt) };
+    } else { go(rt) }));
+    let _ = std::panic::take_hook();
+    let r = match r { Ok(x) => x, Err(_) => Ok(vec!["a request PANICKED (every publish / lookup / history request, MostRecent(usize::MAX) included, must return)".to_string()]) };
     if let Ok(bad) = r {
         if let Some(b) = bad.first() {
             out.push(Failure {
                 clause: "replay/c0203#all_answers".into(),
                 case: vec!["c0203".into(), cfg.into(), n.to_string(), (par as u8).to_string(), (multi as u8).to_string()],
-                input: format!("[{cfg}] publish {n} labels twice, a third time with the even ones unchanged and a fourth time with all unchanged ({} insertion, {} runtime), then lookup / batch_lookup / key_history (Complete, MostRecent(1), MostRecent(5)) of every label", if par { "parallel" } else { "sequential" }, if multi { "4-worker" } else { "single-threaded" }),
+                input: format!("[{cfg}] publish {n} labels twice, a third time with the even ones unchanged and a fourth time with all unchanged ({} insertion, {} runtime), then lookup / batch_lookup / key_history (Complete, MostRecent(1), MostRecent(5), MostRecent(usize::MAX)) of every label", if par { "parallel" } else { "sequential" }, if multi { "4-worker" } else { "single-threaded" }),
                 expected: "every answer verifies against the epoch hash returned with it and yields the latest value, the version = number of DISTINCT successive values and the epoch of that update / all versions newest first; a publish of unchanged values creates no epoch; an unpublished label gets an error".into(),
                 observed: format!("{b} ({} problems)", bad.len()),
                 finding_id: None,
